@@ -1148,6 +1148,204 @@ Section Validator.
     destruct (run_checks_exact _ _ _ _ _ Hmask Hci) as (Hfst & Hsnd). rewrite Hfst, Hsnd in Hp. exact Hp.
   Qed.
 
+  (* ================================================================== the ASSEMBLED annotation *)
+
+  (* string-level issues of an annotation (none when the parsed string is empty) *)
+  Definition sl (a : ann) : list raw := if truthy a then full a else [].
+
+  Lemma row_payload_numeric cfg r z :
+    r_onset r = Some z ->
+    row_payload cfg r = flat_map (fun p => sl [p]) (pieces cfg (r_onset r) (r_body r)).
+  Proof. intros H. unfold row_payload. rewrite H. reflexivity. Qed.
+
+  (* a row WITHOUT Delay text and with a numeric onset: exactly the issues of its assembled annotation *)
+  Lemma validate_row_equals_assembled_no_delay cfg t l k r z :
+    validate cfg t = Ok l -> cf_has_onset cfg = true -> no_scramble cfg t ->
+    cf_fix_mask cfg = true \/ Forall (fun r => r_onset r <> None) t ->
+    distinct_times cfg t ->
+    nth_error t k = Some r -> cells_error_free r ->
+    r_onset r = Some z -> b_delaytext (r_body r) = false ->
+    Permutation (string_raws l (k + row_adj cfg))
+                (flat_map basic (ids_of (r_body r)) ++ sl [PCells (ids_of (r_body r))]).
+  Proof.
+    intros H Hon Hns Hmk Hd Hk Hfree Hz Hdt.
+    rewrite (validate_row_equals_string cfg t l k r H Hon Hns Hmk Hd Hk Hfree).
+    rewrite (row_payload_numeric cfg r z Hz). unfold pieces. rewrite Hdt. cbn [flat_map]. now rewrite app_nil_r.
+  Qed.
+
+  (* the hypothesis about STRING validation under which the split into pieces is invisible: validating an
+     annotation gives the issues of the annotation without some of its top-level Delay groups plus the issues of
+     each of these groups (a property of the string validator, not of the file validator) *)
+  Definition delay_split_neutral : Prop :=
+    forall ids ks, Permutation (sl [PCells ids]) (sl [PRem ids ks] ++ flat_map (fun k => sl [PDelay ids k]) ks).
+
+  Lemma validate_row_equals_assembled cfg t l k r z :
+    delay_split_neutral ->
+    validate cfg t = Ok l -> cf_has_onset cfg = true -> no_scramble cfg t ->
+    cf_fix_mask cfg = true \/ Forall (fun r => r_onset r <> None) t ->
+    distinct_times cfg t ->
+    nth_error t k = Some r -> cells_error_free r -> r_onset r = Some z ->
+    Permutation (string_raws l (k + row_adj cfg))
+                (flat_map basic (ids_of (r_body r)) ++ sl [PCells (ids_of (r_body r))]).
+  Proof.
+    intros Hsplit H Hon Hns Hmk Hd Hk Hfree Hz.
+    rewrite (validate_row_equals_string cfg t l k r H Hon Hns Hmk Hd Hk Hfree).
+    apply Permutation_app_head. rewrite (row_payload_numeric cfg r z Hz). unfold pieces.
+    destruct (b_delaytext (r_body r)); [|cbn [flat_map]; now rewrite app_nil_r].
+    cbn [flat_map]. rewrite flat_map_map'. symmetry. apply Hsplit.
+  Qed.
+
+  (* ================================================================== row labels of row-level issues *)
+
+  Lemma onset_checks_sources adj invalid st rows :
+    Forall (fun i : issue => exists r0, In r0 rows /\ i_row i = Some (s_orig r0 + adj) /\ i_col i = None /\
+                                        truthy (s_ann r0) = true /\
+                                        ((exists x, i_src i = SFull x /\ In x (full (s_ann r0))) \/
+                                         (exists x st0, i_src i = STemporal x /\ In x (snd (temporal st0 (s_ann r0))))))
+           (onset_checks adj invalid st rows).
+  Proof.
+    revert st; induction rows as [|r rs IH]; intros st; cbn [FileValidate.onset_checks]; [constructor|].
+    assert (Hrest : forall st', Forall (fun i : issue => exists r0, In r0 (r :: rs) /\ i_row i = Some (s_orig r0 + adj) /\
+                       i_col i = None /\ truthy (s_ann r0) = true /\
+                       ((exists x, i_src i = SFull x /\ In x (full (s_ann r0))) \/
+                        (exists x st0, i_src i = STemporal x /\ In x (snd (temporal st0 (s_ann r0))))))
+                     (onset_checks adj invalid st' rs)).
+    { intros st'. eapply Forall_impl; [|apply IH]. intros i (r0 & Hin & Hr). exists r0. split; [now right|exact Hr]. }
+    destruct (existsb (Nat.eqb (s_orig r)) invalid); [apply Hrest|].
+    destruct (truthy (s_ann r)) eqn:Et; [|apply Hrest].
+    destruct (temporal st (s_ann r)) as [st' ti] eqn:Etm.
+    apply Forall_app; split; [|apply Forall_app; split; [|apply Hrest]].
+    - apply Forall_forall. intros i Hi. apply in_map_iff in Hi as (x & <- & Hx). exists r.
+      split; [now left|]. cbn. repeat split; auto. left. eauto.
+    - apply Forall_forall. intros i Hi. apply in_map_iff in Hi as (x & <- & Hx). exists r.
+      split; [now left|]. cbn. repeat split; auto. right. exists x, st. rewrite Etm. split; [reflexivity|exact Hx].
+  Qed.
+
+  Lemma split_out_pieces cfg d x :
+    split_row cfg d = Ok x ->
+    Forall (fun r0 => exists p, In p (pieces cfg (dr_onset d) (dr_body d)) /\ s_ann r0 = [p]) (fst x :: snd x).
+  Proof.
+    unfold split_row, pieces. intros H. destruct (b_delaytext (dr_body d)).
+    - apply bind_ok in H as (dr & Hdr & H). inversion H; subst x. clear H. cbn [fst snd].
+      rewrite <- (delay_rows_removed _ _ _ _ _ _ _ Hdr).
+      destruct (delay_rows_props _ _ _ _ _ _ _ Hdr) as (_ & Hanns).
+      constructor; [eexists; split; [left; reflexivity|reflexivity]|].
+      apply Forall_forall. intros r0 Hr0.
+      assert (In (s_ann r0) (map s_ann (fst dr))) as Hin by now apply in_map.
+      rewrite Hanns in Hin. apply in_map_iff in Hin as (j & Hj & Hjin).
+      exists (PDelay (ids_of (dr_body d)) j). split; [right; now apply in_map|now symmetry].
+    - inversion H; subst x. cbn [fst snd]. constructor; [|constructor].
+      eexists; split; [left; reflexivity|reflexivity].
+  Qed.
+
+  (* an annotation of the row itself: the string assembled from its cells, or one of the pieces it is split into *)
+  Definition own_annotation (cfg : config) (r : row) (a : ann) : Prop :=
+    a = [PJoin (ids_of (r_body r))] \/ exists p, In p (pieces cfg (r_onset r) (r_body r)) /\ a = [p].
+
+  (* every row-level issue (full-string, banned-tag, temporal) is labelled with the file row whose own annotation
+     produced it *)
+  Definition row_level_located (cfg : config) (t : list row) (i : issue) : Prop :=
+    match i_src i with
+    | SFull x => i_col i = None /\ exists k r a, i_row i = Some (k + row_adj cfg) /\ nth_error t k = Some r /\
+                                                  own_annotation cfg r a /\ In x (full a)
+    | SBanned x => i_col i = None /\ exists k r a, i_row i = Some (k + row_adj cfg) /\ nth_error t k = Some r /\
+                                                    own_annotation cfg r a /\ In x (banned a)
+    | STemporal x => i_col i = None /\ exists k r a st0, i_row i = Some (k + row_adj cfg) /\ nth_error t k = Some r /\
+                                                          own_annotation cfg r a /\ In x (snd (temporal st0 a))
+    | _ => True
+    end.
+
+  Lemma validate_row_level_located cfg t l :
+    validate cfg t = Ok l -> cf_has_onset cfg = true -> no_scramble cfg t ->
+    cf_fix_mask cfg = true \/ Forall (fun r => r_onset r <> None) t ->
+    distinct_times cfg t ->
+    Forall (row_level_located cfg t) l.
+  Proof.
+    intros H Hon Hns Hmk Hdist.
+    destruct (validate_shape cfg t l H Hon Hmk Hdist) as (Hp & Hrows).
+    eapply Permutation_Forall; [symmetry; exact Hp|]. clear Hp.
+    pose proof (frame_perm cfg t Hns) as Hfp.
+    apply Forall_app; split; [|apply Forall_app; split; [|apply Forall_app; split]].
+    - unfold FileValidate.column_structure. apply Forall_app; split; [|apply Forall_app; split];
+        apply Forall_forall; intros i Hi.
+      + apply in_map_iff in Hi as (x & <- & _). exact I.
+      + apply in_flat_map in Hi as (c & _ & Hi). unfold key_issues in Hi. apply in_flat_map in Hi as (d & _ & Hi).
+        destruct (existsb (N.eqb c) (b_badkeys (dr_body d))); [|destruct Hi]. destruct Hi as [<-|[]]. exact I.
+      + apply in_map_iff in Hi as (x & <- & _). exact I.
+    - destruct (needs_sorting cfg t); constructor; [exact I|constructor].
+    - apply Forall_forall. intros i Hi. apply in_flat_map in Hi as (d & Hd & Hi).
+      apply (Permutation_in _ Hfp) in Hd. destruct (in_indexed t d Hd) as (r & Hr & Ho & Hb).
+      unfold row_issues in Hi. apply in_app_or in Hi as [Hi|Hi].
+      + apply in_flat_map in Hi as (c & _ & Hi). unfold cell_issues in Hi. destruct (c_skip c); [destruct Hi|].
+        apply in_map_iff in Hi as (x & <- & _). exact I.
+      + destruct (row_invalid (row_adj cfg) d); [destruct Hi|]. destruct (ids_of (dr_body d)) eqn:Eids; [destruct Hi|].
+        destruct (is_some (dr_onset d)); [destruct Hi|]. destruct (truthy _); [|destruct Hi].
+        unfold full_issues in Hi. rewrite Hb in Hi.
+        apply in_app_or in Hi as [Hi|Hi]; apply in_map_iff in Hi as (x & <- & Hx); cbn;
+          (split; [reflexivity|]); exists (dr_label d), r, [PJoin (ids_of (r_body r))];
+          (split; [reflexivity|]); (split; [exact Hr|]); (split; [now left|exact Hx]).
+    - eapply Forall_impl; [|apply onset_checks_sources].
+      intros i (r0' & Hin & Hrow & Hcol & Htr & Hsrc).
+      apply in_map_iff in Hin as (r0 & <- & Hr0).
+      apply (Permutation_in _ (sort_by_perm _ _)) in Hr0.
+      apply (Permutation_in _ (split_rows_flat _)) in Hr0.
+      apply in_flat_map in Hr0 as (x & Hx & Hr0). apply in_map_iff in Hx as (d & <- & Hd).
+      assert (Hnorm : norm r0 = r0).
+      { unfold norm in *. destruct (s_time r0); [reflexivity|]. cbn in Htr. discriminate. }
+      rewrite Hnorm in *. clear Hnorm.
+      rewrite Forall_forall in Hrows. destruct (Hrows d Hd) as (xk & Hxk).
+      assert (Hout : split_out cfg d = xk) by (unfold split_out; now rewrite Hxk). rewrite Hout in Hr0.
+      pose proof (split_out_pieces cfg d xk Hxk) as Hpc. rewrite Forall_forall in Hpc.
+      destruct (Hpc r0 Hr0) as (p & Hp & Hann).
+      destruct (split_row_props cfg d xk Hxk) as (H1 & _ & H3).
+      assert (Horig : s_orig r0 = dr_label d).
+      { destruct Hr0 as [<-|Hr0]; [exact H1|]. rewrite Forall_forall in H3. now destruct (H3 r0 Hr0). }
+      apply (Permutation_in _ Hfp) in Hd. destruct (in_indexed t d Hd) as (r & Hr & Ho & Hb).
+      assert (Hown : own_annotation cfg r (s_ann r0)).
+      { right. exists p. rewrite <- Ho, <- Hb. auto. }
+      unfold row_level_located. rewrite Horig in Hrow.
+      destruct Hsrc as [(x0 & Hs & Hx0)|(x0 & st0 & Hs & Hx0)]; rewrite Hs.
+      + split; [exact Hcol|]. exists (dr_label d), r, (s_ann r0). auto.
+      + split; [exact Hcol|]. exists (dr_label d), r, (s_ann r0), st0. auto.
+  Qed.
+
+  (* which issues carry a row: exactly those that do not concern the file as a whole *)
+  Definition row_classified (cfg : config) (t : list row) (i : issue) : Prop :=
+    match i_src i with
+    | SPre _ | SPost _ | SUnordered => i_row i = None /\ i_col i = None
+    | _ => exists k, k < length t /\ i_row i = Some (k + row_adj cfg)
+    end.
+
+  Lemma validate_row_classified cfg t l : validate cfg t = Ok l -> Forall (row_classified cfg t) l.
+  Proof.
+    intros H. pose proof (validate_labels_in_range cfg t l H) as Hr.
+    apply validate_unfold in H as (onsets & ci & Hon & Hci & Hp).
+    assert (Hk : Forall (fun i : issue => match i_src i with
+                                          | SPre _ | SPost _ | SUnordered => i_row i = None /\ i_col i = None
+                                          | _ => i_row i <> None end) l).
+    { eapply Permutation_Forall; [symmetry; exact Hp|].
+      apply Forall_app; split; [|apply Forall_app; split; [|apply Forall_app; split]].
+      - unfold FileValidate.column_structure. apply Forall_app; split; [|apply Forall_app; split];
+          apply Forall_forall; intros i Hi.
+        + apply in_map_iff in Hi as (x & <- & _). cbn. auto.
+        + apply in_flat_map in Hi as (c & _ & Hi). unfold key_issues in Hi. apply in_flat_map in Hi as (d & _ & Hi).
+          destruct (existsb (N.eqb c) (b_badkeys (dr_body d))); [|destruct Hi]. destruct Hi as [<-|[]]. cbn. discriminate.
+        + apply in_map_iff in Hi as (x & <- & _). cbn. auto.
+      - destruct (needs_sorting cfg t); constructor; [cbn; auto|constructor].
+      - destruct (run_checks_shape _ _ _ _ Hci) as (Ha & _ & _).
+        eapply Forall_impl; [|exact Ha]. intros i (d & _ & [Hi|Hi]).
+        + apply in_flat_map in Hi as (c & _ & Hi). unfold cell_issues in Hi.
+          destruct (c_skip c); [destruct Hi|]. apply in_map_iff in Hi as (x & <- & _). cbn. discriminate.
+        + unfold full_issues in Hi. apply in_app_or in Hi as [Hi|Hi]; apply in_map_iff in Hi as (x & <- & _); cbn; discriminate.
+      - destruct onsets as [rows|]; [|constructor].
+        eapply Forall_impl; [|apply onset_checks_sources].
+        intros i (r0 & _ & Hrow & _ & _ & [(x & Hs & _)|(x & st0 & Hs & _)]); rewrite Hs, Hrow; discriminate. }
+    rewrite Forall_forall in *. intros i Hi. specialize (Hr i Hi). specialize (Hk i Hi).
+    unfold row_classified, label_in_range in *.
+    destruct (i_src i); try exact Hk;
+      (destruct (i_row i) as [n|]; [destruct Hr as (k & Hk1 & ->); exists k; auto|congruence]).
+  Qed.
+
   (* ================================================================== the out-of-order warning *)
 
   Definition is_unordered (i : issue) : bool := match i_src i with SUnordered => true | _ => false end.
@@ -1219,6 +1417,55 @@ Section Validator.
     symmetry. apply (validate_row_equals_string cfg t' l' k' r H' Hon Hns'); auto.
     destruct Hnum as [Hm|Hnum]; [now left|right]. eapply Permutation_Forall; eauto.
   Qed.
+
+  (* ---- the statements for the code as it is (mask indexed by row label, fix c357095) and, separately, for the
+     positional mask that the code had before ---- *)
+  Lemma validate_row_equals_string_current cfg t l k r :
+    cf_fix_mask cfg = true ->
+    validate cfg t = Ok l -> cf_has_onset cfg = true -> no_scramble cfg t -> distinct_times cfg t ->
+    nth_error t k = Some r -> cells_error_free r ->
+    Permutation (string_raws l (k + row_adj cfg)) (flat_map basic (ids_of (r_body r)) ++ row_payload cfg r).
+  Proof. intros Hm H Hon Hns Hd Hk Hf. apply (validate_row_equals_string cfg t l k r); auto. Qed.
+
+  Lemma validate_row_equals_string_positional cfg t l k r :
+    Forall (fun r => r_onset r <> None) t ->
+    validate cfg t = Ok l -> cf_has_onset cfg = true -> no_scramble cfg t -> distinct_times cfg t ->
+    nth_error t k = Some r -> cells_error_free r ->
+    Permutation (string_raws l (k + row_adj cfg)) (flat_map basic (ids_of (r_body r)) ++ row_payload cfg r).
+  Proof. intros Hm H Hon Hns Hd Hk Hf. apply (validate_row_equals_string cfg t l k r); auto. Qed.
+
+  Lemma validate_row_equals_assembled_no_delay_current cfg t l k r z :
+    cf_fix_mask cfg = true ->
+    validate cfg t = Ok l -> cf_has_onset cfg = true -> no_scramble cfg t -> distinct_times cfg t ->
+    nth_error t k = Some r -> cells_error_free r ->
+    r_onset r = Some z -> b_delaytext (r_body r) = false ->
+    Permutation (string_raws l (k + row_adj cfg))
+                (flat_map basic (ids_of (r_body r)) ++ sl [PCells (ids_of (r_body r))]).
+  Proof. intros Hm H Hon Hns Hd Hk Hf Hz Hdt. apply (validate_row_equals_assembled_no_delay cfg t l k r z); auto. Qed.
+
+  Lemma validate_row_equals_assembled_current cfg t l k r z :
+    delay_split_neutral -> cf_fix_mask cfg = true ->
+    validate cfg t = Ok l -> cf_has_onset cfg = true -> no_scramble cfg t -> distinct_times cfg t ->
+    nth_error t k = Some r -> cells_error_free r -> r_onset r = Some z ->
+    Permutation (string_raws l (k + row_adj cfg))
+                (flat_map basic (ids_of (r_body r)) ++ sl [PCells (ids_of (r_body r))]).
+  Proof. intros Hs Hm H Hon Hns Hd Hk Hf Hz. apply (validate_row_equals_assembled cfg t l k r z); auto. Qed.
+
+  Lemma validate_row_level_located_current cfg t l :
+    cf_fix_mask cfg = true ->
+    validate cfg t = Ok l -> cf_has_onset cfg = true -> no_scramble cfg t -> distinct_times cfg t ->
+    Forall (row_level_located cfg t) l.
+  Proof. intros Hm H Hon Hns Hd. apply validate_row_level_located; auto. Qed.
+
+  Lemma validate_shuffle_rows_follow_current cfg t t' l l' k k' r :
+    cf_fix_mask cfg = true -> Permutation t t' ->
+    validate cfg t = Ok l -> validate cfg t' = Ok l' ->
+    cf_has_onset cfg = true -> no_scramble cfg t -> no_scramble cfg t' ->
+    distinct_times cfg t -> distinct_times cfg t' ->
+    nth_error t k = Some r -> nth_error t' k' = Some r -> cells_error_free r ->
+    Permutation (string_raws l (k + row_adj cfg)) (string_raws l' (k' + row_adj cfg)).
+  Proof. intros Hm Hp H H' Hon Hns Hns' Hd Hd' Hk Hk' Hf. apply (validate_shuffle_rows_follow cfg t t' l l' k k' r); auto. Qed.
+
 End Validator.
 
 (* ==================================================================== concrete witnesses *)
@@ -1232,7 +1479,7 @@ Definition w_temporal (st : nat) (a : ann) : nat * list nat := (S st, [10 + st])
 Definition w_validate := validate nat w_err w_basic w_full w_banned w_nonempty nat w_temporal 0 [] [].
 
 (* refs: curly-brace scrambling (before fd59dc0); fixed: case-insensitive unit lookup (f83491d);
-   rep: the repairs fix-F2, fix-F3, fix-F4 *)
+   rep: the repairs fix commit ef31cc7, fix commit e4bce88, fix commit c357095 *)
 Definition cfg0 (refs fixed rep : bool) : config :=
   {| cf_header := true; cf_has_onset := true; cf_has_refs := refs; cf_cats := []; cf_fixed := fixed;
      cf_fix_none := rep; cf_fix_value := rep; cf_fix_mask := rep |}.
@@ -1280,14 +1527,14 @@ Proof.
   - vm_compute. eexists. reflexivity.
 Qed.
 
-(* C07-F2 before fix-F2: an accepted unit WITHOUT conversion factor (month, year) raised TypeError;
+(* C07-F2 before fix commit ef31cc7: an accepted unit WITHOUT conversion factor (month, year) raised TypeError;
    the repaired code validates the same table *)
 Lemma never_raises_no_factor_refuted :
   w_validate (cfg0 false true false) t_years = Exn TypeError /\
   exists l, w_validate (cfg0 false true true) t_years = Ok l.
 Proof. split; [vm_compute; reflexivity|vm_compute; eexists; reflexivity]. Qed.
 
-(* C07-F3 before fix-F3: a non-numeric Delay value ("Delay/abc s") or a Delay in a row with n/a onset raised
+(* C07-F3 before fix commit e4bce88: a non-numeric Delay value ("Delay/abc s") or a Delay in a row with n/a onset raised
    ValueError; the repaired code validates the same tables *)
 Definition t_abc : list row :=
   [delay_row (Some 1000000%Z) 5 {| d_num := None; d_unit := UKey true |}; plain_row (Some 2000000%Z) 6].
@@ -1319,7 +1566,7 @@ Proof.
   cbn in Hin. destruct Hin as [<-|[]]. cbn in Hx. exact Hx.
 Qed.
 
-(* C07-F4 before fix-F4: with an n/a onset the row-level issue of the row in file row 2 was lost although all
+(* C07-F4 before fix commit c357095: with an n/a onset the row-level issue of the row in file row 2 was lost although all
    other hypotheses hold; with the mask indexed by label (rep = true) the equation holds (general theorem) *)
 Definition t_na : list row := [plain_row None 5; plain_row (Some 2%Z) 6].
 
@@ -1367,7 +1614,7 @@ Proof.
   - vm_compute. reflexivity.
 Qed.
 
-(* with the case-insensitive unit lookup alone (before fix-F2/F3): numeric onsets and accepted spellings of
+(* with the case-insensitive unit lookup alone (before fix commits ef31cc7 and e4bce88): numeric onsets and accepted spellings of
    units that have a conversion factor never raise *)
 Lemma validate_never_raises_fixed (raw : Type) raw_is_error basic full banned nonempty (tstate : Type) temporal tinit
       (pre post : list raw) cfg t :
